@@ -70,7 +70,7 @@ pub fn units(tier: Tier, seed: u64) -> Vec<Unit> {
         if o.needs_positive() || !seen.insert((o.name(), i.name())) { continue; }
         u.push(unit!(format!("C18/{} over {}/free=1/tail=Alternating/total=64", o.name(), i.name()), bounded_memory(o.clone(), Some(i.clone()), 1usize, Tail::Alternating, 16usize)));
     }
-    for x in u.iter_mut() { x.path_cap = if q { 400 } else { 4000 }; x.budget_s = if q { 6.0 } else { 200.0 }; x.branch_nl_timeout_ms = Some(300); x.max_decisions = 60000; }
+    for x in u.iter_mut() { x.path_cap = if q { 400 } else { 4000 }; x.budget_s = if q { 6.0 } else { 60.0 }; x.branch_nl_timeout_ms = Some(300); x.max_decisions = 60000; }
     u
 }
 pub fn meta() -> Meta {
